@@ -70,7 +70,7 @@ func (h *history) nextUpload(i int) int {
 // update list; inAllowed whether it may be.
 func (h *history) inMust(i int, v *ver) bool {
 	p := h.parents[i]
-	if h.regime == "pre" {
+	if h.regime != "commit" {
 		return v.upload > p.upload && v.upload < h.nextUpload(i)
 	}
 	return v.commit.After(p.commit) && v.commit.Before(h.nextCommit(i).Add(-h.th))
@@ -78,7 +78,7 @@ func (h *history) inMust(i int, v *ver) bool {
 
 func (h *history) inAllowed(i int, v *ver) bool {
 	p := h.parents[i]
-	if h.regime == "pre" {
+	if h.regime != "commit" {
 		return v.upload > p.upload && v.upload <= h.nextUpload(i)
 	}
 	return v.commit.After(p.commit) && !v.commit.After(h.nextCommit(i))
@@ -114,7 +114,7 @@ func (h *history) judge(p *plan) map[key]*childVerdict {
 				continue
 			}
 			sameUploadDelete := false
-			if h.regime == "pre" {
+			if h.regime != "commit" {
 				// a deleted version in the parent's own upload: the heuristic may still see the previous one
 				for _, v := range cv.sv {
 					if v.upload == pv.upload && !v.visible {
@@ -134,7 +134,7 @@ func (h *history) judge(p *plan) map[key]*childVerdict {
 				switch {
 				case h.inMust(i, v):
 					add(kDeleted)
-				case h.regime == "pre":
+				case h.regime != "commit":
 					// deleted in the next parent's upload: the consistent pattern when that version drops the child
 				default:
 					// deleted within the threshold before (or at) the next parent version
@@ -484,7 +484,7 @@ func c11History(t *testing.T, r *kit.Run, hi int, h *history, p *plan, ao annOpt
 			}
 			// (c) time travel
 			var times []time.Time
-			if h.regime == "pre" {
+			if h.regime != "commit" {
 				jit := h.th / 2
 				for u := pv.upload; u < h.nextUpload(i) && u < len(h.uploads); u++ {
 					times = append(times, h.uploads[u].Add(jit))
@@ -561,9 +561,12 @@ func c11History(t *testing.T, r *kit.Run, hi int, h *history, p *plan, ao annOpt
 	}
 
 	// ---- probes about the history
-	if h.regime == "pre" {
+	switch h.regime {
+	case "pre":
 		o.Probe("pre-commit-regime")
-	} else {
+	case "mixed":
+		o.Probe("mixed-regime")
+	default:
 		o.Probe("commit-time-regime")
 	}
 	if h.parent.typ == tRel {
@@ -614,4 +617,3 @@ func c11History(t *testing.T, r *kit.Run, hi int, h *history, p *plan, ao annOpt
 	}
 	return nontrivial
 }
-
